@@ -26,6 +26,7 @@ import XotModel.Driver.Fanyorder
 import XotModel.Driver.Fidx
 import XotModel.Driver.Fcreation
 import XotModel.Driver.Arena
+import XotModel.Driver.ArenaRefine
 
 open XotModel.Driver
 
@@ -46,7 +47,7 @@ def dispatch (st : DState) (line : String) : DState × String :=
   | "lex" :: rest => (st, (handleLex rest).getD "bad-request")
   | "representable" :: rest => (st, (handleRepresentable st rest).getD "bad-request")
   | "sertokens" :: rest => (st, (handleSerTokens st rest).getD "bad-request")
-  | "arena" :: rest => (st, (handleArena rest).getD "bad-request")
+  | "arena" :: rest => (st, ((handleArena rest).orElse (fun _ => handleArenaRefine rest)).getD "bad-request")
   | _ => (st, "bad-request")
 
 structure MState where
